@@ -115,6 +115,21 @@ claim("C18",
       "containment constraint are not decided.",
       NOTE, "DESIGN.md section 2, C18")
 
+claim("C11",
+      "bound-before-insert dominance on the CFG, memo-sharing/forwarding extraction, guarded-store analysis of the row map, re-keying identity guard",
+      "Static: every tree stored into TreeList._trees is dominated by its import into the list's namespace or is constructed over it; the import helper migrates or adds "
+      "whenever namespaces differ; migration assigns then reconstructs and forwards the shared memo, which TreeList/DataSet hand unchanged to all members; matrix rows are "
+      "stored only under checked members and re-keying excludes identity; DataSet.new_* bind to the attached namespace. That no taxon is dropped/merged as a statement "
+      "about label multisets is not decided.",
+      NOTE, "DESIGN.md section 2, C11")
+claim("C12",
+      "memo-discipline checks over all copy-protocol functions (memo passed, registration dominates recursion, annotations handled apart), pre-seeding dominance, clone whitelist, mutable-default scan",
+      "Static: each copy.deepcopy inside a __deepcopy__/_clone_from/annotation copier passes the memo and the new object is registered first; namespace-scoped copies pre-seed "
+      "the memo with the namespace and its taxa before deep-copying; _clone_from maps namespace and taxa first; the thin clone copies a fixed whitelist; no mutable default or "
+      "instance-mutated class-level container in the data model. Equality of copy and source and independence as behaviour are not decided; TreeList/CharacterMatrix copy.copy "
+      "are documented shallow and not claimed.",
+      NOTE, "DESIGN.md section 2, C12")
+
 _PENDING = "rule module not yet built in this session (claimed in DESIGN.md; will move to checks when the rule lands)"
 for _p in ["C01","C02","C03","C04","C05","C06","C07","C08","C09","C10","C11","C12","C13","C15","C16","C18","C20"]:
     if _p not in CLAIMED:
